@@ -611,6 +611,121 @@ fn input_item(ts: TokenStream) -> String {
     }
 }
 
+
+// ---------------------------------------------------------------------------------------------
+// structure of the macro's OUTPUT when it starts with / embeds the INPUT tokens (append-only):
+// only the part the macro added is parsed with syn; the user's part is kept as verbatim tokens, so
+// that items syn cannot parse (or prints differently) do not make the whole output "unparsable".
+
+fn tt_eq(a: &TokenTree, b: &TokenTree) -> bool {
+    match (a, b) {
+        (TokenTree::Ident(x), TokenTree::Ident(y)) => x.to_string() == y.to_string(),
+        (TokenTree::Punct(x), TokenTree::Punct(y)) => x.as_char() == y.as_char(),
+        (TokenTree::Literal(x), TokenTree::Literal(y)) => canon_lit(&x.to_string()) == canon_lit(&y.to_string()),
+        (TokenTree::Group(x), TokenTree::Group(y)) => {
+            x.delimiter() == y.delimiter() && ts_eq(&x.stream().into_iter().collect::<Vec<_>>(), &y.stream().into_iter().collect::<Vec<_>>())
+        }
+        _ => false,
+    }
+}
+
+fn ts_eq(a: &[TokenTree], b: &[TokenTree]) -> bool {
+    a.len() == b.len() && a.iter().zip(b.iter()).all(|(x, y)| tt_eq(x, y))
+}
+
+fn parse_items(tts: &[TokenTree]) -> Option<Vec<String>> {
+    let ts: TokenStream = tts.iter().cloned().collect();
+    match syn::parse2::<syn::File>(ts) {
+        Ok(f) if f.attrs.is_empty() && f.shebang.is_none() => Some(f.items.iter().map(item).collect()),
+        _ => None,
+    }
+}
+
+fn other_of(tts: &[TokenTree]) -> String {
+    format!("(other {})", toks(tts.iter().cloned().collect()))
+}
+
+fn is_brace(tt: &TokenTree) -> bool {
+    matches!(tt, TokenTree::Group(g) if g.delimiter() == proc_macro2::Delimiter::Brace)
+}
+
+fn is_ident(tt: &TokenTree, name: &str) -> bool {
+    matches!(tt, TokenTree::Ident(i) if i.to_string() == name)
+}
+
+fn out_items_prefix_aware(input: &TokenStream, output: &TokenStream) -> Option<String> {
+    let i: Vec<TokenTree> = input.clone().into_iter().collect();
+    let o: Vec<TokenTree> = output.clone().into_iter().collect();
+    if i.is_empty() || !is_brace(i.last().unwrap()) {
+        return None;
+    }
+    let n = i.len();
+    let body_i: Vec<TokenTree> = match &i[n - 1] {
+        TokenTree::Group(g) => g.stream().into_iter().collect(),
+        _ => return None,
+    };
+    // which kind of item: the keyword in front of the last brace group's header
+    let is_mod = n >= 3 && is_ident(&i[n - 3], "mod");
+    let has_kw = |k: &str| i[..n - 1].iter().any(|t| is_ident(t, k));
+    if is_mod {
+        // head `mod name { body' } rest` with body' starting with the input body
+        if o.len() < n || !ts_eq(&i[..n - 1], &o[..n - 1]) {
+            return None;
+        }
+        let body_o: Vec<TokenTree> = match &o[n - 1] {
+            TokenTree::Group(g) if g.delimiter() == proc_macro2::Delimiter::Brace => g.stream().into_iter().collect(),
+            _ => return None,
+        };
+        if body_o.len() < body_i.len() || !ts_eq(&body_i, &body_o[..body_i.len()]) {
+            return None;
+        }
+        let inner_gen = parse_items(&body_o[body_i.len()..])?;
+        let after = parse_items(&o[n..])?;
+        // attrs / vis / name of the module from an empty-bodied copy
+        let mut head: Vec<TokenTree> = i[..n - 1].to_vec();
+        head.push(TokenTree::Group(proc_macro2::Group::new(proc_macro2::Delimiter::Brace, TokenStream::new())));
+        let m: syn::ItemMod = syn::parse2(head.into_iter().collect()).ok()?;
+        if has_inner_attr(&m.attrs) || m.unsafety.is_some() {
+            return None;
+        }
+        let mut inner: Vec<String> = vec![];
+        if !body_i.is_empty() {
+            inner.push(other_of(&body_i));
+        }
+        inner.extend(inner_gen);
+        let mut items = vec![format!(
+            "(mod {} {} {} {})",
+            attrs(&m.attrs),
+            toks_of(&m.vis),
+            esc(&m.ident.to_string()),
+            list("items", inner)
+        )];
+        items.extend(after);
+        return Some(list("items", items));
+    }
+    if has_kw("impl") || has_kw("trait") {
+        return None; // impl blocks / traits are re-synthesised by the macro: parsed as a whole
+    }
+    // fn: the output starts with the input tokens
+    if o.len() < n || !ts_eq(&i, &o[..n]) {
+        return None;
+    }
+    let f: syn::ItemFn = syn::parse2(input.clone()).ok()?;
+    if has_inner_attr(&f.attrs) {
+        return None;
+    }
+    let gen = parse_items(&o[n..])?;
+    let mut items = vec![format!(
+        "(fn {} {} {} {})",
+        attrs(&f.attrs),
+        toks_of(&f.vis),
+        sig(&f.sig),
+        toks_of(&f.block)
+    )];
+    items.extend(gen);
+    Some(list("items", items))
+}
+
 // ---------------------------------------------------------------------------------------------
 // dump reader
 
@@ -693,9 +808,12 @@ fn case(rec: &Record) -> String {
         Some(text) => match TokenStream::from_str(text) {
             Err(_) => "outlexerr".to_string(),
             Ok(ts) => {
-                let items = match syn::parse2::<syn::File>(ts.clone()) {
-                    Ok(f) if f.attrs.is_empty() && f.shebang.is_none() => list("items", f.items.iter().map(item)),
-                    _ => "unparsable".to_string(),
+                let items = match out_items_prefix_aware(&input_ts, &ts) {
+                    Some(s) => s,
+                    None => match syn::parse2::<syn::File>(ts.clone()) {
+                        Ok(f) if f.attrs.is_empty() && f.shebang.is_none() => list("items", f.items.iter().map(item)),
+                        _ => "unparsable".to_string(),
+                    },
                 };
                 format!("(out {} {})", toks(ts), items)
             }
